@@ -1081,7 +1081,49 @@ pub fn run_ana(tier: &str, seed: u64) -> Report {
         let arch = if id % 2 == 0 { Arch::X64 } else { Arch::A64 };
         // text: a generated function (optionally preceded by another one), or structured random
         // words / bytes
-        let text: Vec<u8> = match p.below(4) {
+        let text: Vec<u8> = match p.below(5) {
+            // known multi-instruction sequences (epilogues with returns, tail calls and
+            // authenticated tail calls; prologues), cut off after every possible length: the
+            // function's bytes as delimited by the unwind table may end anywhere
+            3 => {
+                let full: Vec<u8> = match arch {
+                    Arch::A64 => {
+                        let mut w: Vec<u32> = Vec::new();
+                        if p.chance(1, 2) {
+                            w.push(0x9100_03ff | (((16 * (1 + p.below(8))) as u32) << 10)); // add sp, sp, #n
+                        }
+                        if p.chance(2, 3) {
+                            w.push(0xa8c1_7bfd); // ldp x29, x30, [sp], #16
+                        }
+                        match p.below(5) {
+                            0 => w.extend_from_slice(&[0xd503_23ff, 0xca1e_07d0, 0xb6f0_0050, 0xd438_8e20, 0x1400_0040]),
+                            1 => w.extend_from_slice(&[0xd503_23ff, 0xca1e_07d0, 0xb6f0_0050, 0xd438_8e20, 0xd280_06f0, *p.pick(&[0xd71f_0a10u32, 0xd71f_0870])]),
+                            2 => w.push(0xd65f_0fff), // retab
+                            3 => w.push(*p.pick(&[0x1400_0040u32, 0xd61f_0200])),
+                            _ => w.extend_from_slice(&[0xd503_237f, 0xd100_83ff, 0xa901_7bfd, 0x9100_43fd]), // pacibsp; sub sp; stp; add x29
+                        }
+                        w.iter().flat_map(|x| x.to_le_bytes()).collect()
+                    }
+                    Arch::X64 => {
+                        let mut b: Vec<u8> = Vec::new();
+                        match p.below(3) {
+                            0 => b.extend_from_slice(&[0x48, 0x83, 0xc4, 0x20]),
+                            1 => b.extend_from_slice(&[0x48, 0x81, 0xc4, 0x00, 0x01, 0x00, 0x00]),
+                            _ => {}
+                        }
+                        for _ in 0..p.below(4) {
+                            let pop: Vec<u8> = p.pick(&[vec![0x5bu8], vec![0x41, 0x5c], vec![0x41, 0x5f], vec![0x5d]]).clone();
+                            b.extend_from_slice(&pop);
+                        }
+                        let tail: Vec<u8> = p.pick(&[vec![0xc3u8], vec![0xe9, 0x40, 0x01, 0x00, 0x00], vec![0xeb, 0x40], vec![0xff, 0xe0], vec![0x55, 0x48, 0x89, 0xe5, 0x41, 0x57, 0x48, 0x81, 0xec, 0x00, 0x01, 0x00, 0x00]]).clone();
+                        b.extend_from_slice(&tail);
+                        b
+                    }
+                };
+                let keep = 1 + p.below(full.len() as u64) as usize;
+                let keep = if arch == Arch::A64 && p.chance(7, 8) { (keep + 3) & !3 } else { keep };
+                full[..keep.min(full.len())].to_vec()
+            }
             0 | 1 => {
                 let shape = *p.pick(&[Shape::FramePointer, Shape::Frameless, Shape::Leaf]);
                 let nc = p.below(2) as usize;
